@@ -202,3 +202,198 @@ def rules(rep, db, inline):
             if why:
                 break
         verdict("COUNT", fn, key, why, ps)
+
+
+# --------------------------------------------------------------------------------------------
+# split_string / join_strings: iterator positions (engine S with the storage model and std iterators as positions)
+
+def _pos(t, evs, r):
+    """k if the term is begin(r) + k, 'end' if it is end(r), else None"""
+    k = 0
+    while isinstance(t, tuple) and t and t[0] == "op" and t[1] == "+" and sx.is_const(t[3]):
+        k += int(str(t[3][1]).rstrip("uUlL"))
+        t = t[2]
+    if isinstance(t, tuple) and t and t[0] == "ev" and 0 < t[1] <= len(evs):
+        n, a = evname(evs[t[1] - 1]), evs[t[1] - 1][1]
+        if len(a) == 1 and sx.show(a[0]) == r:
+            if n.split("::")[-1] in ("begin", "cbegin"):
+                return k
+            if n.split("::")[-1] in ("end", "cend") and k == 0:
+                return "end"
+    return None
+
+
+def _deref_of(x):
+    """the position term a dereference reads, for class iterators (app deref) and pointers (built-in *)"""
+    if isinstance(x, tuple) and x and x[0] == "app" and x[1] == "deref" and len(x[2]) == 1:
+        return x[2][0]
+    if isinstance(x, tuple) and x and x[0] == "deref":
+        return x[1]
+    return None
+
+
+def rules_strings(rep, db, inline):
+    rep.rule("SPLIT-JOIN", "split_string pushes exactly the pieces between the delimiters (the last one up to the end); join_strings appends the "
+                           "elements in order with the delimiter between consecutive ones -- on every path of a twice-unrolled range", floor=6)
+    cfg = sx.Config(inline_prefixes=tuple(inline) + ("fcppt::range::",), loop_bound=2, lvalues=True, iter_positions=True)
+    for short in ("split_string", "join_strings"):
+        seen = set()
+        for fn in db.fns(A + short):
+            k_ = tuple(fn.get("targs") or [])
+            if k_ in seen:
+                continue
+            seen.add(k_)
+            key = "%s<%s>" % (short, ", ".join(x.replace("std::", "") for x in k_)[:90])
+            r, dl = fn["params"][0]["name"], fn["params"][1]["name"]
+            try:
+                ps = sx.Interp(db, cfg).paths(fn, limit=200)
+            except sx.Unsupported as e:
+                rep.broken("C16 %s: outside the interpreted fragment (%s)" % (key, e))
+                continue
+            why = None
+            complete = 0
+            for p in ps:
+                if p.outcome[0] != "return":
+                    continue
+                evs = p.events
+                n = None
+                mask = {}
+                for d, v in p.decisions:
+                    if not (isinstance(d, tuple) and d and d[0] == "cmp" and d[1] in ("==", "!=")):
+                        why = "a decision that is neither an end test nor a delimiter test: %s" % sx.show(d)
+                        break
+                    eq = v if d[1] == "==" else not v
+                    a, b = _pos(d[2], evs, r), _pos(d[3], evs, r)
+                    if "end" in (a, b) and isinstance(a if b == "end" else b, int):
+                        if eq:
+                            n = a if b == "end" else b
+                        continue
+                    sides = [d[2], d[3]]
+                    de = [x for x in sides if _deref_of(x) is not None]
+                    ot = [x for x in sides if x not in de]
+                    if short == "split_string" and len(de) == 1 and len(ot) == 1 and sx.show(ot[0]) == dl and isinstance(_pos(_deref_of(de[0]), evs, r), int):
+                        mask[_pos(_deref_of(de[0]), evs, r)] = eq
+                        continue
+                    why = "a decision that is neither an end test nor a delimiter test: %s" % sx.show(d)
+                    break
+                if why:
+                    break
+                if n is None:
+                    why = "a path returns without having reached the end of the range"
+                    break
+                complete += 1
+                if short == "split_string":
+                    if sorted(mask) != list(range(n)):
+                        why = "a string of length %d is split after testing the positions %s only" % (n, sorted(mask))
+                        break
+                    want, start = [], 0
+                    for k in range(n):
+                        if mask[k]:
+                            want.append((start, k))
+                            start = k + 1
+                    want.append((start, n))
+                    got = []
+                    for e in evs:
+                        if evname(e).split("::")[-1] in ("push_back", "emplace_back"):
+                            s_ = e[1][-1]
+                            args = list(s_[3]) if isinstance(s_, tuple) and s_ and s_[0] == "new" else []
+                            if len(args) < 2:
+                                why = "a piece that is not built from two positions: %s" % sx.show(s_)
+                                break
+                            got.append((_pos(args[0], evs, r), _pos(args[1], evs, r)))
+                    if not why and got != want:
+                        why = "for length %d with delimiters at %s the pieces are %s, expected %s" % (n, [k for k in range(n) if mask[k]], got, want)
+                else:
+                    want = []
+                    for k in range(n):
+                        want.append(("elem", k))
+                        if k + 1 < n:
+                            want.append(("delim",))
+                    got = []
+                    for e in evs:
+                        if evname(e).endswith("operator+="):
+                            x = e[1][-1]
+                            if _deref_of(x) is not None and isinstance(_pos(_deref_of(x), evs, r), int):
+                                got.append(("elem", _pos(_deref_of(x), evs, r)))
+                            elif sx.show(x) == dl:
+                                got.append(("delim",))
+                            else:
+                                got.append(("other", sx.show(x)))
+                    if got != want:
+                        why = "for %d elements the result is built from %s, expected %s" % (n, got, want)
+                if why:
+                    break
+            if not why and complete < 3:
+                why = "fewer than three complete paths (lengths 0, 1, 2)"
+            (rep.fail if why else rep.ok)("SPLIT-JOIN", key, F.primary_site(fn), F.describe(fn)[:200], **({"why": why} if why else {"how": "%d complete paths" % complete}))
+
+
+def rules_sets(rep, db, inline):
+    rep.rule("SETOPS", "set_union / set_intersection / set_difference call the std algorithm once over both whole sets, inserting into the result they "
+                       "return; key_set / map_values_copy insert the key / the mapped value of every element in order", floor=4)
+    cfg = sx.Config(inline_prefixes=tuple(inline) + ("fcppt::range::", "fcppt::container::"), loop_bound=2)
+    for short in ("set_union", "set_intersection", "set_difference"):
+        seen = set()
+        for fn in db.fns("fcppt::container::" + short):
+            k_ = tuple(fn.get("targs") or [])
+            if k_ in seen:
+                continue
+            seen.add(k_)
+            key = "%s<%s>" % (short, ", ".join(x.replace("std::", "") for x in k_)[:80])
+            a, b = fn["params"][0]["name"], fn["params"][1]["name"]
+            try:
+                ps = sx.Interp(db, cfg).paths(fn, limit=20)
+            except sx.Unsupported as e:
+                rep.broken("C16 %s: %s" % (key, e))
+                continue
+            why = None
+            if len(ps) != 1 or ps[0].outcome[0] != "return":
+                why = "%d paths" % len(ps)
+            else:
+                ev = shown(ps[0])
+                names = [(n.split("::")[-1], x) for n, x in ev]
+                algo = [i for i, (n, x) in enumerate(ev) if n == "std::" + short]
+                out = sx.show(ps[0].outcome[1])
+                if len(algo) != 1:
+                    why = "std::%s is not called exactly once" % short
+                else:
+                    call = ev[algo[0]][1]
+                    def src(x):
+                        m = re.match(r"^#(\d+):(\w+)$", unwrap_iter(x))
+                        if not m:
+                            return None
+                        n_, a_ = ev[int(m.group(1)) - 1]
+                        return (n_.split("::")[-1].lstrip("c"), a_[0] if a_ else None)
+                    if [src(x) for x in call[:4]] != [("begin", a), ("end", a), ("begin", b), ("end", b)]:
+                        why = "std::%s is not called over [begin, end) of the first set and [begin, end) of the second, in this order: %s" % (short, [src(x) for x in call[:4]])
+                    else:
+                        ins = src(call[4]) if len(call) > 4 else None
+                        ie = ev[int(re.match(r"^#(\d+):", unwrap_iter(call[4])).group(1)) - 1] if len(call) > 4 and re.match(r"^#(\d+):", unwrap_iter(call[4])) else None
+                        if ie is None or not ie[0].endswith("inserter") or ie[1][0] != out:
+                            why = "the output iterator is not an inserter into the set that is returned"
+            (rep.fail if why else rep.ok)("SETOPS", key, F.primary_site(fn), F.describe(fn)[:160], **({"why": why} if why else {"how": "delegates"}))
+    for short, member in (("key_set", "first"), ("map_values_copy", "second")):
+        seen = set()
+        for fn in db.fns("fcppt::container::" + short):
+            k_ = tuple(fn.get("targs") or [])
+            if k_ in seen:
+                continue
+            seen.add(k_)
+            key = "%s<%s>" % (short, ", ".join(x.replace("std::", "") for x in k_)[:80])
+            m = fn["params"][0]["name"]
+            try:
+                ps = sx.Interp(db, cfg).paths(fn, limit=40)
+            except sx.Unsupported as e:
+                rep.broken("C16 %s: %s" % (key, e))
+                continue
+            why = None
+            for p in ps:
+                n = sum(1 for d, v in p.decisions if v and sx.show(d).startswith("more(%s," % m))
+                if p.outcome[0] == "truncated":
+                    n -= 1
+                ins = [x[-1] for nm, x in shown(p) if nm.split("::")[-1] in ("insert", "push_back", "emplace_back", "emplace")]
+                want = ["%s[%d].%s" % (m, i, member) for i in range(n)]
+                if ins[:n] != want or (p.outcome[0] == "return" and len(ins) != n):
+                    why = "for %d elements the values inserted are %s, expected %s" % (n, ins, want)
+                    break
+            (rep.fail if why else rep.ok)("SETOPS", key, F.primary_site(fn), F.describe(fn)[:160], **({"why": why} if why else {"how": "every element's %s in order" % member}))
